@@ -208,7 +208,7 @@ func init() {
 				s2.Via = Pick(c, "", "", "notfound", "fresh-notfound", "private")
 				cfg.Services = append(cfg.Services, s2)
 				for i, n := 0, c.Range(1, 3); i < n; i++ {
-					restPool = append(restPool, restMethods[c.Intn(12)]) // the sim2 methods
+					restPool = append(restPool, restMethods[c.Intn(11)]) // the sim2 methods
 				}
 			}
 			draw := func() *RPCPlan {
@@ -244,7 +244,7 @@ func init() {
 				// what one service's resolver cannot name must not be lost to the other: JSON traffic on the parameter service
 				// (whose resolver knows nothing here) first, then a JSON client of the stream-shape service (global types) is
 				// told an error with typed details
-				if h := genRESTClientRPC(c, &cfg, restMethods[c.Intn(12)]); h != nil {
+				if h := genRESTClientRPC(c, &cfg, restMethods[c.Intn(11)]); h != nil {
 					rpcs = append([]RPCPlan{*h}, rpcs...) // first: before anything else has needed the JSON codec
 				}
 				if pr := genRPC(c, ScenOpts{MaxMsgs: 1, MaxBytes: 40, NoErr: true, Forms: []string{FormREST}, Methods: []string{"RestAll", "RestAllNSE"}}); pr != nil {
